@@ -4,7 +4,7 @@
    `parse_document`, `parse_value_raw`, `parse_key`, `parse_key_path` never return PPanic. *)
 From TV Require Import Base.Prelude Base.Utf8 Base.Winnow Gen.Consts Spec.Abnf.
 From TV Require Import Model.Trivia Model.Strings Model.Datetime Model.Numbers Model.Tree Model.Parse Model.Document.
-From TV Require Import Proofs.ConstsOk Proofs.NoPanicBase Proofs.NoPanicLex Proofs.NoPanicValue Proofs.NoPanicState.
+From TV Require Import Proofs.Eoi Proofs.ConstsOk Proofs.NoPanicBase Proofs.NoPanicLex Proofs.NoPanicValue Proofs.NoPanicState.
 Require Import Lia ZifyBool ZifyN ZifyNat.
 
 (* ---- parse_keyval ------------------------------------------------------------------------------------- *)
@@ -253,11 +253,17 @@ Proof.
 Qed.
 
 Theorem parse_value_total s st : parse_value_raw s <> PPanic st.
-Proof. apply lift_outcome_nopanic, value_safe. Qed.
+Proof.
+  unfold parse_value_raw. intro H. apply (proj1 (lift_eoi_panic _ _ _)) in H. revert H. apply lift_outcome_nopanic, value_safe.
+Qed.
 Theorem parse_key_total s st : parse_key s <> PPanic st.
-Proof. apply lift_outcome_nopanic, simple_key_safe. Qed.
+Proof.
+  unfold parse_key. intro H. apply (proj1 (lift_eoi_panic _ _ _)) in H. revert H. apply lift_outcome_nopanic, simple_key_safe.
+Qed.
 Theorem parse_key_path_total s st : parse_key_path s <> PPanic st.
-Proof. apply lift_outcome_nopanic, key_safe. Qed.
+Proof.
+  unfold parse_key_path. intro H. apply (proj1 (lift_eoi_panic _ _ _)) in H. revert H. apply lift_outcome_nopanic, key_safe.
+Qed.
 
 (* the state machine on reachable states, stated on its own *)
 Theorem state_machine_total :
